@@ -304,6 +304,11 @@ class WrapperModel(Model):
                     outs.append(R(s2, None, tok, line))
             for k in args:
                 self.mark_hashable(k, st)
+            if m == 'dump' and getattr(self, 'dump_fail', False):
+                # the archive write can fail (disk full, a value that cannot be encoded, a lock): nothing was archived
+                s2 = st.fork()
+                s2.emit('DUMPFAIL', tuple(args), line, extra={'keys': tuple(args)})
+                outs.append(R(s2, None, GENERIC, line))
             st.emit(kind, tuple(args), line, extra={'keys': tuple(args)})
             if m == 'load':
                 if args:
